@@ -34,6 +34,24 @@ func mapOrderRewrites() []rewrite {
 			count: []int{1},
 		},
 		{
+			name: "maporder:finder-refs", file: "pkg/api/utils/closed_sets_finder.go", imp: true,
+			edits: [][2]string{{"for _, v := range m {", "for _, mk := range verifrt.MapOrder(\"finder.Refs\", m) {\n\t\tv := m[mk]"}},
+			count: []int{1},
+		},
+		{
+			name: "maporder:fetch-refs", file: "pkg/api/client/upload_pack_session.go", imp: true,
+			edits: [][2]string{{"for _, v := range m {", "for _, mk := range verifrt.MapOrder(\"fetch.Refs\", m) {\n\t\tv := m[mk]"}},
+			count: []int{1},
+		},
+		{
+			name: "maporder:push-tables", file: "pkg/api/client/receive_pack_session.go", imp: true,
+			edits: [][2]string{
+				{"for sum := range s.tablesToSend {", "for _, sum := range verifrt.MapOrder(\"push.Tables\", s.tablesToSend) {"},
+				{"for _, sum := range remoteRefs {", "for _, mk := range verifrt.MapOrder(\"push.RemoteRefs\", remoteRefs) {\n\t\tsum := remoteRefs[mk]"},
+			},
+			count: []int{1, 1},
+		},
+		{
 			name: "maporder:transaction", file: "pkg/transaction/transaction.go", imp: true,
 			edits: [][2]string{{"for branch, sum := range m {", "for _, branch := range verifrt.MapOrder(\"transaction.Commit\", m) {\n\t\tsum := m[branch]"}},
 			count: []int{2},
